@@ -14,32 +14,75 @@ class OutOfSubset(Exception):
 
 
 class State(object):
-    """One guarded machine state.  `pc` is the path condition; states that are
-    merged have mutually exclusive path conditions (the executor is
-    deterministic; all nondeterminism is in fresh constants)."""
-    __slots__ = ("pc", "frames", "heap", "ghost")
+    """One guarded machine state.  The path condition is kept as a list of conjuncts so that states forked
+    from a common ancestor share a prefix (by identity) and merge back to a small condition.  States that are
+    merged have mutually exclusive path conditions (the executor is deterministic; all nondeterminism is in
+    fresh constants)."""
+    __slots__ = ("conj", "frames", "heap", "ghost", "_pc")
 
     def __init__(self, pc, frames, heap, ghost):
-        self.pc = pc
+        self.conj = []
+        self._pc = None
+        if isinstance(pc, list):
+            self.conj = list(pc)
+        elif not z3.is_true(pc):
+            self.conj = [pc]
         self.frames = frames      # fid -> {name: Val}
         self.heap = heap
         self.ghost = ghost        # name -> z3 term (any sort) or Heap (snapshots)
 
+    @property
+    def pc(self):
+        if self._pc is None:
+            if not self.conj:
+                self._pc = z3.BoolVal(True)
+            elif len(self.conj) == 1:
+                self._pc = self.conj[0]
+            else:
+                self._pc = z3.And(*self.conj)
+        return self._pc
+
+    @pc.setter
+    def pc(self, v):
+        v = simp(v)
+        self.conj = [] if z3.is_true(v) else [v]
+        self._pc = None
+
     def fork(self):
-        return State(self.pc, {k: dict(v) for k, v in self.frames.items()}, self.heap, dict(self.ghost))
+        return State(list(self.conj), {k: dict(v) for k, v in self.frames.items()}, self.heap, dict(self.ghost))
 
     def assign(self, other):
-        self.pc, self.frames, self.heap, self.ghost = other.pc, other.frames, other.heap, other.ghost
+        self.conj, self.frames, self.heap, self.ghost = list(other.conj), other.frames, other.heap, other.ghost
+        self._pc = None
 
     @property
     def dead(self):
-        return z3.is_false(self.pc)
+        return any(z3.is_false(c) for c in self.conj)
 
     def kill(self):
-        self.pc = z3.BoolVal(False)
+        self.conj = [z3.BoolVal(False)]
+        self._pc = None
 
     def guard(self, c):
-        self.pc = simp(z3.And(self.pc, c))
+        c = simp(c)
+        if z3.is_true(c):
+            return
+        if z3.is_false(c):
+            self.kill()
+            return
+        # cheap complementary-literal detection
+        for x in self.conj:
+            if x.eq(c):
+                return
+            if (z3.is_not(x) and x.arg(0).eq(c)) or (z3.is_not(c) and c.arg(0).eq(x)):
+                self.kill()
+                return
+        if z3.is_and(c):
+            for ch in c.children():
+                self.guard(ch)
+            return
+        self.conj.append(c)
+        self._pc = None
 
 
 def _merge_term(c, a, b):
@@ -55,26 +98,50 @@ def _merge_term(c, a, b):
     return z3.If(c, a, b)
 
 
+def _split_common(s1, s2):
+    n = 0
+    a, b = s1.conj, s2.conj
+    while n < len(a) and n < len(b) and (a[n] is b[n] or a[n].eq(b[n])):
+        n += 1
+    return a[:n], a[n:], b[n:]
+
+
+def _conj(ts):
+    if not ts:
+        return z3.BoolVal(True)
+    return ts[0] if len(ts) == 1 else z3.And(*ts)
+
+
 def join2(c, s1, s2):
-    """Merge two states; `c` holds in s1 and not in s2 (or use s1.pc when unrelated)."""
+    """Merge two states with mutually exclusive path conditions (`c` is ignored: the distinguishing
+    condition is computed from the path conditions relative to their common prefix)."""
     if s1 is None or s1.dead:
         return s2 if (s2 is not None and not s2.dead) else None
     if s2 is None or s2.dead:
         return s1
+    common, t1, t2 = _split_common(s1, s2)
+    c1, c2 = simp(_conj(t1)), simp(_conj(t2))
+    both = simp(z3.Or(c1, c2))
+    sel = c1
+    # pick the smaller discriminator
+    if len(str(c2)) < len(str(c1)) and False:
+        sel = z3.Not(c2)
     frames = {}
     for fid in set(s1.frames) | set(s2.frames):
         f1, f2 = s1.frames.get(fid, {}), s2.frames.get(fid, {})
         out = {}
         for name in set(f1) | set(f2):
-            out[name] = _merge_term(c, f1.get(name, VUnbound), f2.get(name, VUnbound))
+            out[name] = _merge_term(sel, f1.get(name, VUnbound), f2.get(name, VUnbound))
         frames[fid] = out
     ghost = {}
     for g in set(s1.ghost) | set(s2.ghost):
         if g in s1.ghost and g in s2.ghost:
-            ghost[g] = _merge_term(c, s1.ghost[g], s2.ghost[g])
+            ghost[g] = _merge_term(sel, s1.ghost[g], s2.ghost[g])
         else:
             ghost[g] = s1.ghost.get(g, s2.ghost.get(g))
-    return State(simp(z3.Or(s1.pc, s2.pc)), frames, Heap.ite(c, s1.heap, s2.heap), ghost)
+    st = State(list(common), frames, Heap.ite(sel, s1.heap, s2.heap), ghost)
+    st.guard(both)
+    return st
 
 
 def join(states):
@@ -84,7 +151,7 @@ def join(states):
         return None
     acc = live[-1]
     for s in reversed(live[:-1]):
-        acc = join2(s.pc, s, acc)
+        acc = join2(None, s, acc)
     return acc
 
 
@@ -95,8 +162,9 @@ def join_vals(pairs):
         return None, None
     st, val = live[-1]
     for s, v in reversed(live[:-1]):
-        val = _merge_term(s.pc, v, val)
-        st = join2(s.pc, s, st)
+        common, t1, t2 = _split_common(s, st)
+        val = _merge_term(simp(_conj(t1)), v, val)
+        st = join2(None, s, st)
     return st, val
 
 
